@@ -152,8 +152,12 @@ func c17Scenarios() []c17Scenario {
 	tx("ESDTNFTAddQuantity/origin", "ESDTNFTAddQuantity", func(u *universe) ([]byte, []byte, [][]byte) { return u.U[0], u.U[0], [][]byte{u.NFTs[1], be(1), be(3)} }, nil, nil)
 	tx("ESDTNFTBurn/partial", "ESDTNFTBurn", func(u *universe) ([]byte, []byte, [][]byte) { return u.U[0], u.U[0], [][]byte{u.NFTs[1], be(1), be(3)} }, nil, nil)
 	tx("ESDTNFTBurn/whole(entry deleted)", "ESDTNFTBurn", func(u *universe) ([]byte, []byte, [][]byte) { return u.U[0], u.U[0], [][]byte{u.NFTs[1], be(2), be(7)} }, nil, nil)
-	tx("ESDTNFTAddURI/origin", "ESDTNFTAddURI", func(u *universe) ([]byte, []byte, [][]byte) { return u.U[0], u.U[0], [][]byte{u.NFTs[0], be(1), []byte("uriX"), []byte("uriY")} }, nil, nil)
-	tx("ESDTNFTUpdateAttributes/origin", "ESDTNFTUpdateAttributes", func(u *universe) ([]byte, []byte, [][]byte) { return u.U[0], u.U[0], [][]byte{u.NFTs[0], be(1), []byte("new-attr")} }, nil, nil)
+	tx("ESDTNFTAddURI/origin", "ESDTNFTAddURI", func(u *universe) ([]byte, []byte, [][]byte) {
+		return u.U[0], u.U[0], [][]byte{u.NFTs[0], be(1), []byte("uriX"), []byte("uriY")}
+	}, nil, nil)
+	tx("ESDTNFTUpdateAttributes/origin", "ESDTNFTUpdateAttributes", func(u *universe) ([]byte, []byte, [][]byte) {
+		return u.U[0], u.U[0], [][]byte{u.NFTs[0], be(1), []byte("new-attr")}
+	}, nil, nil)
 
 	// ---------------- system-contract functions ----------------
 	freezeU0 := func(u *universe, w *hWorld) { mustOK(w.sys(u, u.U[0], "ESDTFreeze", u.Fung[0]), "freeze") }
@@ -236,7 +240,9 @@ func c17Scenarios() []c17Scenario {
 	tx(N+"/sender/same-shard/nft", N, nft(u0, 0, 1, 1, u1), nil, nil)
 	tx(N+"/sender/same-shard/sft-partial", N, nft(u0, 1, 1, 5, u1), nil, nil)
 	tx(N+"/sender/same-shard/destination-already-holds", N, nft(u0, 1, 1, 5, u1),
-		func(u *universe, w *hWorld) { mustOK(w.tx(u.U[0], u.U[0], N, bigGas, u.NFTs[1], be(1), be(4), u.U[1]), "first transfer") }, nil)
+		func(u *universe, w *hWorld) {
+			mustOK(w.tx(u.U[0], u.U[0], N, bigGas, u.NFTs[1], be(1), be(4), u.U[1]), "first transfer")
+		}, nil)
 	tx(N+"/sender/same-shard/contract-no-call(payable query)", N, nft(u0, 1, 1, 5, k0), nil, nil)
 	tx(N+"/sender/same-shard/attached-call", N, nft(u0, 1, 1, 5, k0, fn1, arg1), nil, nil)
 	tx(N+"/sender/cross-shard/nft", N, nft(u0, 0, 1, 1, u2), nil, nil)
@@ -455,7 +461,7 @@ func c17Enumerate(c *ctx, u *universe) {
 	c.rep.Extra["enumeration"] = map[string]interface{}{
 		"scenarios": len(scs), "functions_covered": len(fnSides), "executions": totalRuns, "fault_points": totalFaults,
 		"exhaustive_over": "every (scenario, k) with 0 <= k < D(scenario), plus k = D (unreached)",
-		"table": table}
+		"table":           table}
 }
 
 // ---------- random walks: every successful call is re-executed from its own pre-state with every k ----------
